@@ -9,6 +9,6 @@ for sp in sorted(glob.glob('/verif/contracts/*.spec')):
     if os.path.exists('/verif/contracts/shapes.json'):
         pass
     u, text, info = W.build_unit(sp, '/repo', '/verif/contracts', shims.SHIMS)
-    out[u.name] = {f: fi['shape'] for f, fi in info.items() if fi.get('shape') and not fi['extern']}
+    out[u.name] = {f: dict(fi['shape'], shims=fi.get('shim_counts', {})) for f, fi in info.items() if fi.get('shape') and not fi['extern']}
 json.dump(out, open('/verif/contracts/shapes.json', 'w'), indent=1, sort_keys=True)
 print(sum(len(v) for v in out.values()), 'shapes')
